@@ -35,11 +35,11 @@ import (
 )
 
 type BackupParams struct {
-	Mode string   `json:"mode"` // native | rsync
+	Mode string `json:"mode"` // native | rsync
 	// Unsettled: rsync mode without time passing between operations (see vSettle); every mismatch of such a
 	// run is reported under the single key of the recorded known finding
-	Unsettled bool `json:"unsettled,omitempty"`
-	IDs  []string `json:"ids"`
+	Unsettled bool     `json:"unsettled,omitempty"`
+	IDs       []string `json:"ids"`
 }
 
 func vNewBackupManager(w *VWorld, location string, rsync bool) *BackupManager {
@@ -192,6 +192,21 @@ func VReplayBackup(task engine.SeqTask) (res engine.SeqResult) {
 			w.Restart()
 			bm = vNewBackupManager(w, location, rs)
 			restartedSince = true
+		case "wipe":
+			// DELETE /datasets: the store is dropped and opened empty; the hub is then restarted (the dataset
+			// manager only re-creates core.Dataset at start) and the two datasets are created again
+			if err := w.Store.Delete(); err != nil {
+				res.HarnessEr = "Store.Delete: " + err.Error()
+				return
+			}
+			w.Restart()
+			bm = vNewBackupManager(w, location, rs)
+			restartedSince = true
+			h.M = model.NewWorld()
+			if err := h.EnsureDatasets("A", "B"); err != nil {
+				res.HarnessEr = err.Error()
+				return
+			}
 		case "backup":
 			canonAtStart := h.Canon(append(append([]string{}, p.IDs...), "e4"), []string{"A", "B"}, "")
 			nsAtStart := vNsDigest(w)
@@ -199,9 +214,15 @@ func VReplayBackup(task engine.SeqTask) (res engine.SeqResult) {
 				out, _ := exec.Command("sh", "-c", "stat -c '%n %s %y' "+w.Env.StoreLocation+"/* "+location+"/store/* 2>&1; rsync -avzni --delete "+w.Env.StoreLocation+" "+location).CombinedOutput()
 				fmt.Fprintf(os.Stderr, "---- before backup op %d\n%s\n", i, out)
 			}
+			foreign := vLocationForeign(w.Env.StoreLocation, location)
 			if pn := vRunBackup(bm); pn != "" {
-				if last {
+				if last && !foreign {
 					chk.fail("C20:backup-run-panicked", "a backup run into the store's own backup location panicked: "+pn, nil)
+				}
+				if last && foreign && lastBackup >= 0 {
+					// refused because the location carries the id of the store dropped by the wipe: the location must
+					// still restore to the source as it was when the last completed run started
+					vCheckRestore(chk, h, ops[:lastBackup], location, dir, rs, backupNs)
 				}
 				// not completed: the previous completed backup stays the reference
 				continue
@@ -230,6 +251,11 @@ func VReplayBackup(task engine.SeqTask) (res engine.SeqResult) {
 	var maxV uint64
 	maxV = w.Store.database.MaxVersion()
 	extra := fmt.Sprintf("|bk=%s|zero=%v|cur=%v|rs=%v", backupCanon, bm.lastID == 0, bm.lastID == maxV, restartedSince)
+	if n := len(ops); n > 0 && (ops[n-1].K == "restart" || ops[n-1].K == "wipe") {
+		// what a close / open does to the files is not part of the key: the state right behind one is kept apart,
+		// so that the search continues behind a restart that changes nothing visible
+		extra += "|just-restarted"
+	}
 	sum := sha1.Sum([]byte(cur + extra))
 	res.Key = hex.EncodeToString(sum[:])
 	res.Viol = chk.Viol
@@ -260,6 +286,12 @@ func vCheckRestore(chk *VCheck, h *VHist, prefix []VOp, location, dir string, rs
 	hr.M.Create("A")
 	hr.M.Create("B")
 	for _, op := range prefix {
+		if op.K == "wipe" {
+			hr.M = model.NewWorld()
+			hr.M.Create("A")
+			hr.M.Create("B")
+			continue
+		}
 		hr.ModelApply(op)
 	}
 	rc := &VCheck{H: hr, SkipKnownC03: true, Last: chk.Last}
@@ -297,6 +329,13 @@ func vCheckRestore(chk *VCheck, h *VHist, prefix []VOp, location, dir string, rs
 		v.What = "restored backup differs from the source at the start of the last completed backup run: " + v.What
 		chk.Viol = append(chk.Viol, v)
 	}
+}
+
+// vLocationForeign: the location carries a storage id and it is not the store's.
+func vLocationForeign(store, location string) bool {
+	a, err1 := os.ReadFile(filepath.Join(store, StorageIDFileName))
+	b, err2 := os.ReadFile(filepath.Join(location, StorageIDFileName))
+	return err1 == nil && err2 == nil && string(a) != string(b)
 }
 
 // vDiskScratchDir returns a scratch directory on a disk-backed file system (outside /repo and /verif).
@@ -645,7 +684,7 @@ func init() {
 	})
 
 	engine.RegisterCheck("C20", func(r *engine.Run) {
-		r.Rule = "SEQ: every history up to the stated depth over {write A (contents cycle v1,v2,deleted,ref), write B, delete dataset B, create dataset B, backup run, hub restart} on a store of its own with the real BackupManager; after every history ending in a backup run the location is restored into an empty directory (native: badger Load; rsync: copy of the mirror), a hub is opened on it and dataset list, latest views, change feeds with tokens, relationship queries and namespaces are compared with the reference model of the prefix committed when that run started; states deduplicated by canonical raw-key scan of the source + canonical source state at the last backup + cursor flags. SCHED: a backup run next to a writer thread (DB.Backup, DB.MaxVersion, commits and locks as scheduling points, preemption bounded), then one quiescent run, restore, comparison with all committed writes. ENUM: every foreign-location case (other store's backup / id file only / four near-miss ids) x mode x restarted x 1-2 runs x cursor carried: byte-identical location before and after; distinct = distinct canonical states + foreign cases"
+		r.Rule = "SEQ: every history up to the stated depth over {write A (contents cycle v1,v2,deleted,ref), write B, delete dataset B, create dataset B, backup run, hub restart} on a store of its own with the real BackupManager, plus a narrower alphabet {write A, backup run, restart, delete dataset B, wipe the store (Store.Delete as DELETE /datasets does, then restart and re-create)} one level deeper (a run refused because the wipe made the location foreign must leave the location restoring to the last completed run); after every history ending in a backup run the location is restored into an empty directory (native: badger Load; rsync: copy of the mirror), a hub is opened on it and dataset list, latest views, change feeds with tokens, relationship queries and namespaces are compared with the reference model of the prefix committed when that run started; states deduplicated by canonical raw-key scan of the source + canonical source state at the last backup + cursor flags. SCHED: a backup run next to a writer thread (DB.Backup, DB.MaxVersion, commits and locks as scheduling points, preemption bounded), then one quiescent run, restore, comparison with all committed writes. ENUM: every foreign-location case (other store's backup / id file only / four near-miss ids) x mode x restarted x 1-2 runs x cursor carried: byte-identical location before and after; distinct = distinct canonical states + foreign cases"
 		r.Assumptions = []string{"badger Backup/Load are trusted to round-trip the entries they are given", "the restore procedure is the documented one: badger Load of datahub-backup.kv into an empty store (native) or a copy of the mirrored directory (rsync)", "a backup run that panics is not a completed run"}
 		pool := model.Pool(0)
 		ix := func(n string) int { return model.PoolIndex(pool, n) }
@@ -679,6 +718,16 @@ func init() {
 			}
 			engine.RunSeq(r, engine.SeqSpec{Name: "c20-" + mode, WorkerArgs: []string{"worker", "backup"}, Alphabet: vOpsJSON(alpha), Params: params, Depth: depth, Budget: budget})
 		}
+		// a narrower alphabet, one level deeper, with the store wipe (DELETE /datasets) as an operation
+		{
+			params, _ := json.Marshal(BackupParams{Mode: "native", IDs: []string{"e1", "e2", "e3"}})
+			narrow := []VOp{alpha[0], alpha[1], alpha[5], alpha[6], {K: "wipe"}}
+			depth, budget := 5, 100*time.Second
+			if !r.Quick() {
+				depth, budget = 7, 40*time.Minute
+			}
+			engine.RunSeq(r, engine.SeqSpec{Name: "c20-native-wipe", WorkerArgs: []string{"worker", "backup"}, Alphabet: vOpsJSON(narrow), Params: params, Depth: depth, Budget: budget})
+		}
 		if len(modes) > 1 {
 			// the window vSettle closes, shown on its own: one history, operations back to back
 			params, _ := json.Marshal(BackupParams{Mode: "rsync", IDs: []string{"e1", "e2", "e3"}, Unsettled: true})
@@ -689,7 +738,7 @@ func init() {
 		{
 			ix2 := func(n string) int { return model.PoolIndex(pool, n) }
 			sc := SchedScenario{Name: "B1-backup-run-vs-writer", Datasets: []string{"A"}, IDs: []string{"e1", "e2", "e3"},
-				Pre: []VOp{{K: "batch", DS: "A", Ents: []VEnt{{"e1", ix2("v1")}}}, {K: "backup"}},
+				Pre:     []VOp{{K: "batch", DS: "A", Ents: []VEnt{{"e1", ix2("v1")}}}, {K: "backup"}},
 				Threads: [][]VOp{{{K: "backup"}}, {{K: "batch", DS: "A", Ents: []VEnt{{"e1", ix2("v2")}}}, {K: "batch", DS: "A", Ents: []VEnt{{"e2", ix2("r1")}}}}}}
 			bound, budget := 1, 60
 			if !r.Quick() {
